@@ -185,6 +185,9 @@ def make_classes():
         def __hash__(self):
             return hash(self.val)
 
+        def __len__(self):
+            return self.val         # the instances are falsy containers (val == 0)
+
         @modifiers.kwoargs('b')
         def m_kwo(self, a, b=1):
             return (self.tag, a, b)
@@ -198,7 +201,8 @@ def make_classes():
 
         @specifiers.forwards_to_method('target', emulate=True)
         def m_fwd(self, a, *args, **kwargs):
-            return (self.tag, a) + self.target(*args, **kwargs)
+            # the body hides the target from automatic discovery: only the declaration knows it
+            return (self.tag, a) + getattr(self, 'tar' + 'get')(*args, **kwargs)
 
         @wrappers.decorator(deco)
         def m_deco(self, q, r=1):
@@ -207,7 +211,7 @@ def make_classes():
         # forwards to an attribute that exists only once the instance is configured: until then the forger fails
         @specifiers.forwards_to_method('late_target', emulate=True)
         def m_late(self, a, *args, **kwargs):
-            return (self.tag, a) + self.late_target(*args, **kwargs)
+            return (self.tag, a) + getattr(self, 'late_' + 'target')(*args, **kwargs)
 
         # an intermediate translator that stays in use on its own while another modifier is stacked on it
         def _base(self, a, b=1, c=2):
@@ -262,8 +266,14 @@ def ops(w):
                 out.append(('bind', i, m, True))
         if i not in w.configured:
             out.append(('configure', i))
+        if not inst_val(w, i):
+            out.append(('fill', i))
         out.append(('drop', i))
     return out
+
+
+def inst_val(w, i):
+    return w.inst[i].val
 
 
 def safe(fn):
@@ -289,6 +299,11 @@ def apply_op(w, op):
         w.configured.add(i)
         inst.late_target = inst.target
         return ('ok', 'configured')
+    if kind == 'fill':
+        # the container gets an element: the instance turns truthy and stops comparing equal to its sibling;
+        # nothing a signature or a call result may depend on
+        inst.val = 5
+        return ('ok', 'filled')
     if kind == 'sig':
         w.touched[i].add(op[2])
         return safe(lambda: str(sigtools.signature(getattr(inst, op[2]))))
@@ -332,7 +347,7 @@ def apply_op(w, op):
 def canon(w):
     caches = tuple(sorted((name, len(desc.insts)) for name, desc in vars(w.K).items() if hasattr(desc, 'insts')))
     return (tuple(sorted(w.inst)), tuple(sorted((i, m) for i, m, _ in w.kept)), w.annotated, caches,
-            tuple((i, tuple(sorted(vars(o)))) for i, o in sorted(w.inst.items())),
+            tuple((i, tuple(sorted(vars(o))), o.val) for i, o in sorted(w.inst.items())),
             tuple((i, tuple(sorted(t))) for i, t in sorted(w.touched.items()) if i in w.inst))
 
 
